@@ -108,6 +108,19 @@ def merge_cases(ctx) -> None:
         ctx.check(outcomes == want, 'C20.merge', fn, f'merge case key in {side}, values {kind}: {sorted(outcomes)} (expected {sorted(want)})', loop, key=f'merge:{side}:{kind}')
     ret = next((s for s in fn.body if isinstance(s, ast.Return)), None)
     ctx.check(ret is not None and 'result' in core.src(ret.value), 'C20.merge', fn, 'the merged mapping is returned', ret or fn.node, key='merge:return')
+    # closure under layering: the sequence type the list branch produces must itself be accepted by the list test,
+    # otherwise a third layer no longer merges with the already merged value (it would be replaced)
+    for st in ast.walk(loop):
+        if isinstance(st, ast.If):
+            tests = [c for c in ast.walk(st.test) if isinstance(c, ast.Call) and core.call_name(c) == 'isinstance' and len(c.args) == 2]
+            seqtests = [c for c in tests if any(x in core.src(c.args[1]) for x in ('list', 'tuple', 'Sequence'))]
+            if len(seqtests) == 2:
+                vals = [s for s in st.body if isinstance(s, ast.Assign) and core.src(s.targets[0]) == 'value']
+                if vals:
+                    produced = 'tuple' if isinstance(vals[0].value, ast.Tuple) else ('list' if isinstance(vals[0].value, (ast.List, ast.ListComp)) else core.src(vals[0].value).split('(')[0])
+                    accepted = [core.src(c.args[1]) for c in seqtests]
+                    okc = all(produced in a or 'Sequence' in a for a in accepted)
+                    ctx.check(okc, 'C20.merge', fn, f'the list branch produces a {produced} and its own type test accepts {accepted}: merging stays associative over three and more layers', st, key='merge:list-closure')
     # update / read / constructor order
     text = core.src(upd.node)
     ctx.check('super().update(merge(merge(self, other or {}), kwargs))' in text, 'C20.layering', upd, 'update(): current config, then `other`, then keyword arguments (later wins)', upd.node, key='update:order')
@@ -152,6 +165,16 @@ def provider_bank(ctx) -> None:
     ctx.check(bool(rets) and all(core.src(r.value) == 'self.provider[reference]' for r in rets), 'C20.bank', get, 'Bank.get returns provider[reference] only (never "some" provider)', get.node, key='get:return')
     loops = [n for n in core.walk_local(get.node) if isinstance(n, ast.While)]
     ctx.check(bool(loops) and all('reference not in self.provider' in core.src(l.test) for l in loops), 'C20.bank', get, 'search paths are loaded only until the reference is registered', get.node, key='get:loop')
+    # lookup state is limited to what registration maintains: every bank attribute consulted by get() is updated by add()
+    def self_attrs(fnode, stores=False):
+        out = set()
+        for n in ast.walk(fnode):
+            if isinstance(n, ast.Attribute) and isinstance(n.value, ast.Name) and n.value.id == 'self':
+                out.add(n.attr)
+        return out
+    read = self_attrs(get.node) - {'get', 'add'}
+    maintained = self_attrs(add.node)
+    ctx.check(read <= maintained, 'C20.bank', get, f'Bank.get consults only state that Bank.add maintains ({sorted(read)} vs {sorted(maintained)}): a lookup result never depends on lookups made before a provider was registered', get.node, key='get:state')
     gi = prog.func(f'{PROVIDER}:Meta.__getitem__')
     handlers = [h for h in ast.walk(gi.node) if isinstance(h, ast.ExceptHandler)]
     conv = any('KeyError' in core.src(h.type) and any(isinstance(s, ast.Raise) and 'MissingError' in core.src(s) for s in h.body) for h in handlers if h.type is not None)
@@ -169,6 +192,16 @@ def provider_bank(ctx) -> None:
 
 def sections(ctx) -> None:
     prog = ctx.prog
+    # provider sections: the provider reference is a key of the section itself, taken before generic params are folded in
+    pe = prog.func('forml.setup._provider:Provider._extract')
+    g = cfg.CFG(pe.node)
+    pops = [s for s in g.statements() if any(core.call_tail(c) == 'pop' and 'OPT_PROVIDER' in core.src(c) for c in cfg.header_calls(s))]
+    sups = [s for s in g.statements() if any(core.call_tail(c) == '_extract' and core.src(c.func.value) == 'super()' for c in cfg.header_calls(s) if isinstance(c.func, ast.Attribute))]
+    okp = len(pops) == 1 and len(sups) == 1 and g.dominates(pops[0], sups[0]) and not g.reaches(sups[0], pops[0])
+    ctx.check(okp, 'C20.section', pe, 'the provider reference is read from the section\'s own keys before the generic `params` table is merged into them (a generic option named "provider" must not redirect the lookup)', pops[0] if pops else pe.node, key='provider:pop-before-params')
+    if pops:
+        c = next(c for c in cfg.header_calls(pops[0]) if core.call_tail(c) == 'pop')
+        ctx.check(len(c.args) == 2 and core.src(c.args[1]) == 'reference', 'C20.section', pe, 'without an explicit provider key the section name is the reference', pops[0], key='provider:default')
     new = prog.func(f'{CONF}:Section.__new__')
     handlers = [h for h in ast.walk(new.node) if isinstance(h, ast.ExceptHandler)]
     ctx.check(any('KeyError' in core.src(h.type) and any(isinstance(s, ast.Raise) and 'MissingError' in core.src(s) for s in h.body) for h in handlers if h.type is not None), 'C20.section', new, 'a missing config section raises MissingError', new.node, key='section:missing')
